@@ -51,6 +51,11 @@ CHECKS = {
    "Push decoder (3 API modes): before each call 8 alternative environment actions (early pushes of whole file / row groups, into_builder rebuilds at row-group boundaries, clear_all_ranges, API switch) and 14 answers to each NeedsData (exact, permuted, one-by-one, duplicated, strict subsets, +-1 byte, enclosing range, whole row group, whole file, next row group early); async stream over a hand-written AsyncFileReader and executor (per-range/vectored, metadata up front/fetched, poll_next/next_row_group, spurious polls; every subset of futures pending once up to the bound). Bound 2 deviations quick, 3-4 thorough, over 36 files x 12-15 option points plus option sweeps. Oracle: rows equal the sync reader's, requested ranges non-empty and inside the file, progress after exact answers, re-request after subset answers, buffered_bytes accounting, Finished sticky, no lost wake-ups.",
    "Trusted: the synchronous reader as the row oracle (tied to the reference model by C06). Futures pend at most once; into_builder rebuilds keep projection and filter.",
    "DESIGN.md section 4, C15; engine/vk-pqread/STATUS.md"),
+ "C08": ("vk-untrusted", "fault_enumeration",
+   "exhaustive single-fault mutation (every bit flip / byte value, every truncation, every length-field inflation, cross-splices) of a generated corpus of valid inputs of every format, each mutant read in a watchdog-guarded subprocess with an allocation meter",
+   "Corpus generated at check time by the library's own writers (IPC files/streams incl. dictionaries, views, unions, compression; Parquet files over encodings x codecs x page versions x nesting, with and without page index; Avro OCF per codec and single-object frames; CSV and JSON texts; Variant metadata/value pairs). Mutations: every byte position x every single-bit flip (quick) / every other byte value (thorough); every truncation length; every 4- and 8-byte little-endian window and varint start overwritten by each of 12 boundary values; cross-splices at structural boundaries (thorough); all Variant value byte strings of length <= 2. Readers: IPC FileReader / StreamReader / StreamDecoder / Flight decoders, Parquet metadata reader and record-batch reader with and without page index, Avro Reader and Decoder, CSV, JSON, Variant::try_new + full traversal. Oracle: Err, or Ok with every column passing validate_full and schema agreement; no panic; termination (watchdog); peak allocation <= max(64 MiB, 4096 x input length). 2.25 M mutants quick, 25.5 M thorough.",
+   "Trusted: ArrayData::validate_full as the validity judge (its false rejection 'null_bit_buffer size too small' is ignored). Fingerprints are per (reader entry point, panic site / allocation site / hang), so one missing bound is one finding.",
+   "DESIGN.md section 4, C08; engine/vk-untrusted/STATUS.md"),
  "C09": ("vk-compute", "exploration",
    "bounded exhaustive enumeration of single mutilations of valid ArrayData against validating constructors, acceptance checked by an independent validator written from the Arrow format specification",
    "For 62 types x all columns (len <= 2) x layouts (<= 1 deviation): every mutilation of a type-agnostic menu (len/offset +-1 and overflowing, buffer dropped/added/truncated by a byte or an element/misaligned, validity short/forbidden/wrong null_count, child dropped/added/retyped/shortened/lengthened, every cell of every offsets/sizes/keys/type-id/view/value buffer of the array and its children overwritten by each of 8 replacement values) is fed to ArrayData::try_new, ArrayDataBuilder::build (with and without align_buffers) and new_unchecked+validate_full; whatever is accepted must pass vmodel::spec_validate; RecordBatch::try_new(_with_options) trials.",
